@@ -296,7 +296,16 @@ def rule_generator(rep):
     rep.ob("G2-offset-addresses-own-name", "dispatch arm", ok_off, GEN, od[0] if od else line, why)
     # ---- G1: bucket --------------------------------------------------------------------------------------------------------
     entries = [n for n in tab.walk(loop["body"]) if n.get("k") == "MethodCall" and n["method"] == "entry"]
-    e = only(entries, "`.entry(..)` bucket selection in the loop")
+    # the bucket map is the one whose entry becomes the string the comparison template is appended to
+    cmp_recv = [tab.show(n["recv"]) for n in tab.walk(loop["body"]) if n.get("k") == "MethodCall" and n["method"] == "push_str" and cmp_t[2] in list(tab.walk(n))]
+    bucket_entries = [n for n in entries if any(names and names[0] in cmp_recv and init is not None and n in list(tab.walk(init)) for l_, names, _, init in g.lets)]
+    e = only(bucket_entries or entries, "`.entry(..)` bucket selection in the loop")
+    # ---- G10: every method gets its arm ---------------------------------------------------------------------------------
+    skips = [n for n in tab.walk(loop["body"]) if n.get("k") in ("Continue", "Break") or (n.get("k") == "Return")]
+    top = [st for st in loop["body"]["stmts"] if cmp_t[2] in list(tab.walk(st))]
+    rep.ob("G10-every-method-gets-a-dispatch-arm", "loop over contract_fns", not skips and len(top) == 1, GEN, skips[0]["l"] if skips else loop["l"],
+           "an iteration of the loop over the contract's methods can be left (`continue` / `break` / `return`) or the comparison is appended only conditionally: "
+           "a declared method would get no dispatch arm, and a call naming it would run the fallback or revert")
     bucket_var = tab.show(e["recv"])
     key = tab.show(e["args"][0])
     mk = re.fullmatch(r"(\w+)\.len\(\)", key) or (re.fullmatch(r"(\w+)\.len\(\)", resolve(key, e["l"]) or "") if re.fullmatch(r"\w+", key) else None)
